@@ -185,3 +185,26 @@ def check(case) -> Result:
                   "geometries=" + str(min(len(geoms), 3))]
     res.nontrivial = len(inputs) >= 2 and (multi or len(set(kinds)) > 1 or len(geoms) > 1)
     return res
+
+
+def reductions(case):
+    """Fewer inputs, then simpler inputs."""
+    import copy as _copy
+    from ..reduce import generic_reductions
+    docs, order = case["docs"], case["order"]
+    if len(order) > 1:
+        for i in range(len(order)):
+            yield dict(case, order=order[:i] + order[i + 1:])
+    used = sorted(set(order))
+    if len(used) < len(docs):
+        remap = {old: new for new, old in enumerate(used)}
+        yield dict(case, docs=[docs[i] for i in used], order=[remap[i] for i in order])
+    for i in sorted(set(order)):
+        k = 0
+        for cand in generic_reductions(docs[i]):
+            k += 1
+            if k > 12:
+                break
+            nd = _copy.deepcopy(docs)
+            nd[i] = cand
+            yield dict(case, docs=nd)
